@@ -68,8 +68,9 @@ def run(ctx, build):
             continue
         if any(x["converged"] for x in refout[:-1]):
             after_conv += 1
-        # a single call of a shuffled run uses the same permutation stream only within one process: compare fixed order only
-        single = rs if not (c["solver"] == "savi" and c.get("shuffle")) else None
+        # shuffled runs too: the permutation stream is a function of random_seed and the sweep number only, so the sequence of
+        # calls and the single call (two fresh processes, same seed) must agree
+        single = rs
         why = oracle(c, r, refout, single)
         if why and why.startswith("KNOWN:"):
             viols.append({"key": why[6:], "what": "PeriodicValueIteration.solve() raises TypeError when called again after a converged call cleared the value history", "input": {"case": c}})
@@ -106,7 +107,7 @@ def search(ctx, build, res, time_budget=60):
         rr = core.run_workers(ctx, [runs.job_of(c) for c in cs + singles])
         for c, r, rs in zip(cs, rr[:len(cs)], rr[len(cs):]):
             perms = r["obs"][-1].get("perms") if ("error" not in r and c["solver"] == "savi") else None
-            if c["solver"] == "savi" and c.get("shuffle"):
+            if c["solver"] == "savi" and c.get("shuffle") and perms is None:
                 continue
             refout, guard = runs.reference(c, perms=perms)
             if not guard["ok"]:
